@@ -736,7 +736,28 @@ class Interp:
     def exec_try(self, s, st):
         pre = st.copy()
         n_exits = len(self.frames[-1])
-        r = self.exec_block(s.body, st)
+        try:
+            r = self.exec_block(s.body, st)
+        except _ConcreteRaise as ce:
+            # the body raises for certain: exactly the first handler that names this exception (or a base class of it) runs
+            bases = {'UnicodeDecodeError': ('UnicodeDecodeError', 'UnicodeError', 'ValueError', 'Exception', 'BaseException'),
+                     'ValueError': ('ValueError', 'Exception', 'BaseException'), 'TypeError': ('TypeError', 'Exception', 'BaseException'),
+                     'KeyError': ('KeyError', 'LookupError', 'Exception', 'BaseException'), 'IndexError': ('IndexError', 'LookupError', 'Exception', 'BaseException'),
+                     'AttributeError': ('AttributeError', 'Exception', 'BaseException'), 'OverflowError': ('OverflowError', 'ArithmeticError', 'Exception', 'BaseException')}
+            chain = bases.get(ce.exc)
+            if chain is None:
+                raise
+            for h in s.handlers:
+                names = [unparse(x) for x in (h.type.elts if isinstance(h.type, ast.Tuple) else [h.type])] if h.type is not None else ['BaseException']
+                if any(nm.split('.')[-1] in chain for nm in names):
+                    hst = pre.copy()
+                    if h.name:
+                        hst.env[h.name] = S(('exception', ce.exc))
+                    out = self.exec_block(h.body, hst)
+                    if out is not None and s.finalbody:
+                        out = self.exec_block(s.finalbody, out)
+                    return out
+            raise
         # raises recorded inside the body may be caught: keep them but mark
         caught_any = False
         for e in self.frames[-1][n_exits:]:
@@ -1252,7 +1273,7 @@ class Interp:
                 try:
                     return bytes.fromhex(args[0])
                 except Exception:
-                    raise AnalysisError('bytes.fromhex of a bad constant')
+                    raise _ConcreteRaise('ValueError', 'bytes.fromhex of a bad constant')
             t = term(args[0])
             if isinstance(t, tuple) and t[0] == 'hex':
                 return S(t[1], 'bytes')
@@ -1393,7 +1414,7 @@ class Interp:
                         r = list(r)
                     return r
                 except Exception as e:
-                    raise AnalysisError('constant method call fails: %r' % e)
+                    raise _ConcreteRaise(type(e).__name__, 'constant method call fails: %r' % e)
         if isinstance(base, list):
             if name == 'append' and len(args) == 1:
                 base.append(args[0])
@@ -1623,6 +1644,13 @@ class Interp:
 
 class _AlwaysRaises(AnalysisError):
     pass
+
+
+class _ConcreteRaise(AnalysisError):
+    """an operation on constants that deterministically raises the Python exception ``exc`` (bytes.fromhex('zz') -> ValueError)"""
+    def __init__(self, exc, msg):
+        AnalysisError.__init__(self, msg)
+        self.exc = exc
 
 
 def pc_term(conj):
